@@ -78,6 +78,7 @@ def check_mean(case, ctx):
     lay_ = build.Lay(case.get("orders"))
     e = lay_([p[0] for p in xy], shape)
     n = lay_([p[1] for p in xy], shape)
+    e, n = blocks.pixel_array(lay, e), blocks.pixel_array(lay, n)
     data = tuple(lay_(d, shape) for d in case["data"])
     weights = None if case["weights"] is None else tuple(lay_(w, shape) for w in case["weights"])
     arrays = [e, n] + list(data) + (list(weights) if weights else [])
@@ -185,7 +186,9 @@ def check_mean(case, ctx):
             got = float(np.asarray(out_coords[k])[pos])
             exp = blocks.block_centre(grid, b)[k] if case["center"] else float(sum(fr(v) for v in arr[m]) / len(m))
             scale = max(abs(exp), abs(float(grid["W"])), abs(float(grid["S"])), 1e-300)
-            ctx.check(abs(got - exp) <= 1e-12 * scale, "block %d coordinate %d is %r, expected %r", b, k, got, exp)
+            # coordinates stored in single precision are averaged in single precision (input dtype kept): tolerance in units of that dtype
+            rel = 1e-12 if arr.dtype != np.float32 else 16 * float(np.finfo("float32").eps)
+            ctx.check(abs(got - exp) <= rel * scale, "block %d coordinate %d is %r, expected %r", b, k, got, exp)
     pops = [int(np.sum(labels == b)) for b in occupied]
     ctx.label(case["wmode"], "comps%d" % ncomp, lay["pres"], "readonly" if case["readonly"] else "writable")
     if 1 in pops:
